@@ -11,6 +11,7 @@ import (
 	"sync"
 	"testing"
 	"testing/synctest"
+	"time"
 
 	"github.com/named-data/ndnd/fw/face"
 	enc "github.com/named-data/ndnd/std/encoding"
@@ -91,8 +92,11 @@ func TestStreamGen(t *testing.T) {
 	n := envInt("VERIF_N", 48)
 	big := envInt("VERIF_FULL", 0) == 1
 	total, bytesTotal := 0, 0
+	hw := startHangWatch("TestStreamGen", time.Duration(envInt("VERIF_HANG_S", 60))*time.Second)
+	defer close(hw.stop)
 	for tr := 0; tr < n; tr++ {
 		rng := rand.New(rand.NewSource(verifSeed()*7 + int64(tr)))
+		hw.tick(map[string]any{"execution": tr, "what": "readTlvStream over scripted reads"})
 		nb := 60 + rng.Intn(250)
 		if tr%6 == 0 || tr%6 == 3 {
 			nb = 8 + rng.Intn(10) // one-byte / tiny reads: keep the trace short
@@ -137,6 +141,9 @@ func TestStreamGen(t *testing.T) {
 			sr.chunks = chunks // consumed once, then the large tail
 		}
 		sr.onRead = func(n int) {
+			if n > 0 {
+				hw.tick(nil) // (a reader that spins on empty reads, or never comes back for more, makes no progress)
+			}
 			w.Emit(map[string]any{"ev": "read", "n": n, "frames": frames})
 			frames = []map[string]any{}
 			total++
@@ -203,6 +210,13 @@ func TestStreamApp(t *testing.T) {
 					}
 				}()
 				f.Run()
+				// the read loop gave up although the stream is intact: what follows is never delivered
+				mu.Lock()
+				if crashed == "" {
+					crashed = "STOPPED"
+				}
+				mu.Unlock()
+				go io.Copy(io.Discard, b)
 			}()
 			w.Emit(map[string]any{"ev": "Reset", "blocks": blocks, "mode": "app"})
 			off, bi := 0, 0
